@@ -1033,6 +1033,8 @@ class Ambiguity:
 
         pr = self.model.p
         self.pro_constr = [pr >= 0, pr.sum() == 1] + list(args)
+        self.model.pupdate = True
+        self.model.dupdate = True
 
     def mix_support(self, primal=True):
 
